@@ -205,7 +205,71 @@ func singleTerms(r *hx.Rand, f int, exhaustive bool) []string {
 		out = append(out, n, strings.ToUpper(n))
 	}
 	out = append(out, oddTerms...)
+	// a number MISSING on either side of every separator, alone and combined with valid,
+	// named and out-of-range operands
+	v, w := r.Range(lo, hi), r.Range(lo, hi)
+	if w < v {
+		v, w = w, v
+	}
+	nm := ""
+	if len(names) > 0 {
+		nm = caps(names[r.Intn(len(names))], r.Intn(3))
+	}
+	for _, t := range []string{"-%d", "%d-", "/%d", "%d/", "-%d/2", "%d-/2", "/", "-", "-/", "/-", "--", "//",
+		"*/", "?/", "-%d-", "%d--%d", "%d//%d", "%d-%d/", "-/%d", "%d/-", "%d,-%d", "-%d,%d", "%d,/%d", "%d/,%d"} {
+		n := strings.Count(t, "%d")
+		args := []any{v, w}[:n]
+		out = append(out, fmt.Sprintf(t, args...))
+	}
+	out = append(out, fmt.Sprintf("-%d", hi), fmt.Sprintf("-%d", lo), fmt.Sprintf("%d-", lo), fmt.Sprintf("/%d", hi),
+		fmt.Sprintf("-%d", hi+1), fmt.Sprintf("/%d", 1))
+	if nm != "" {
+		out = append(out, "-"+nm, nm+"-", "/"+nm, nm+"/", "-"+nm+"/2")
+	}
+	// decimal numerals around the machine-integer limits whose low bits fall INSIDE the field's
+	// range (2^31+k, 2^32+k, 2^63+k, 2^64+k, 10^20+k ...), and the limits themselves; as value,
+	// as either end of a range, as step; with leading zeros and a leading sign
+	for _, k := range []int{lo, v, hi, 1, 2, 15} {
+		for _, base := range hugeBases {
+			big := addDecimal(base, k)
+			switch r.Intn(5) {
+			case 0:
+				out = append(out, big)
+			case 1:
+				out = append(out, fmt.Sprintf("%d-%s", lo, big))
+			case 2:
+				out = append(out, fmt.Sprintf("%s-%d", big, hi))
+			case 3:
+				out = append(out, "*/"+big)
+			default:
+				out = append(out, fmt.Sprintf("%d/%s", lo, big), fmt.Sprintf("%d-%d/%s", lo, hi, big))
+			}
+		}
+	}
+	out = append(out, "9223372036854775807", "9223372036854775808", "18446744073709551615", "18446744073709551616",
+		"4294967295", "4294967296", "2147483648", fmt.Sprintf("%022d", v), fmt.Sprintf("%022d-%d", lo, hi),
+		fmt.Sprintf("*/%030d", 2), fmt.Sprintf("+%d", v), fmt.Sprintf("%d-+%d", lo, hi), fmt.Sprintf("*/+%d", 2),
+		fmt.Sprintf("-%d", v), fmt.Sprintf("00%d", hi+1))
 	return out
+}
+
+// hugeBases: 2^31, 2^32, 2^63, 2^64, 2^65, 10^20, 2^64 * 3
+var hugeBases = []string{"2147483648", "4294967296", "9223372036854775808", "18446744073709551616",
+	"36893488147419103232", "100000000000000000000", "55340232221128654848"}
+
+// addDecimal: base + k for a decimal numeral of any length (k small, non-negative)
+func addDecimal(base string, k int) string {
+	d := []byte(base)
+	carry := k
+	for i := len(d) - 1; i >= 0 && carry > 0; i-- {
+		x := int(d[i]-'0') + carry
+		d[i] = byte('0' + x%10)
+		carry = x / 10
+	}
+	if carry > 0 {
+		return strconv.Itoa(carry) + string(d)
+	}
+	return string(d)
 }
 
 // randTerm: one list item; mostly valid.
@@ -317,7 +381,8 @@ var spacePieces = []string{" ", "  ", "\t", "\n", "\r", "\v", "\f", "\u00a0", "\
 
 var mutationPieces = append([]string{"0", "1", "2", "5", "9", "*", "/", "-", ",", "?", "@", "=", "+", "\xff", "\x00",
 	"99999999999999999999", "18446744073709551616", "9223372036854775808", "-5", "+5", "\u0130", "\u212a", "\u017f",
-	"TZ=", "CRON_TZ=", "@every ", "@daily", "jan", "MON", "fr\u0130", "a", "Z", "_", ".", "e", "uary", "day", "hem", "x1"}, spacePieces...)
+	"TZ=", "CRON_TZ=", "@every ", "@daily", "jan", "MON", "fr\u0130", "a", "Z", "_", ".", "e", "uary", "day", "hem", "x1",
+	"18446744073709551616", "1844674407370955162", "9223372036854775808", "4294967296", "000", "-", "/", "+"}, spacePieces...)
 
 func mutate(r *hx.Rand, s string) string {
 	b := []byte(s)
